@@ -6,7 +6,12 @@ use crate::rec::Rec;
 use crate::rng::Rng;
 use crate::runner::{Runner, Tier};
 
-/// extra = [seed, len, shape]; the stream is regenerated from the seed
+/// value injected into the ordinary stream (index 0 = none)
+pub const SPECIAL_VALUES: &[f64] = &[0.0, f64::NAN, f64::INFINITY, f64::NEG_INFINITY, -0.0];
+pub const TAILS: &[&str] = &["rising", "alternating", "flat", "falling", "random"];
+pub const POSITIONS: &[&str] = &["first sample", "right after the window filled", "mid-stream", "repeated"];
+
+/// extra = [seed, len, tail, special, position]; the stream is regenerated from the seed
 pub fn check(case: &Case, rec: &mut Rec) -> Option<Failure> {
     let bound = 256 + 64 * case.ps.iter().sum::<usize>();
     if case.kind == "short" {
@@ -35,27 +40,51 @@ pub fn check(case: &Case, rec: &mut Rec) -> Option<Failure> {
     }
     let seed = case.extra[0] as u64;
     let len = case.extra[1] as usize;
-    let shape = case.extra[2] as usize;
+    // extra = [seed, len, tail, special, position]; replay files written before the product of shapes existed
+    // carry [seed, len, shape]: shapes 0..=4 are the plain tails, 5 / 6 = one NaN as third sample, then falling / flat
+    let (tail, special, position) = if case.extra.len() >= 5 {
+        (case.extra[2] as usize, case.extra[3] as usize, case.extra[4] as usize)
+    } else {
+        match case.extra[2] as usize {
+            5 => (3, 1, 4),
+            6 => (2, 1, 4),
+            t => (t, 0, 0),
+        }
+    };
     let mut rng = Rng::new(seed);
     let mut inst = Ind::create(&case.ind, &case.ps, &case.ms).unwrap().unwrap();
     let bars = !inst.has_next();
     let maxp = case.ps.iter().copied().max().unwrap_or(1);
     let warm = 3 * maxp + 10;
+    let sv = SPECIAL_VALUES[special % SPECIAL_VALUES.len()];
+    // where the special value is injected: first sample / right after the window has filled / mid-stream (long after
+    // the warm-up measurement) / repeatedly, every `gap` inputs (gap drawn from the case's seed, 2..=2n+50)
+    let gap = 2 + rng.below(2 * maxp + 49);
+    let mid = warm + len / 2 + rng.below(maxp + 1);
     let mut live_warm = 0isize;
     let mut size_warm = 0usize;
-    let mut x = 100.0f64;
+    let mut y = 100.0f64; // the ordinary stream keeps evolving underneath the injected values
     for i in 0..(warm + len) {
-        x = match shape {
-            0 => x + 0.01,                                   // monotone up (worst case for monotonic-deque structures)
+        y = match tail {
+            0 => y + 0.01,                                   // rising (worst case for monotonic-deque structures)
             1 => if i % 2 == 0 { 50.0 } else { 150.0 },      // alternating
             2 => 100.0,                                      // flat
-            3 => (x - 0.01).max(0.5),                        // monotone down
-            4 => 100.0 + (rng.unit() - 0.5) * 50.0,          // random
-            5 => if i == 2 { f64::NAN } else if x.is_nan() { 99.0 } else { (x - 0.01).max(0.5) },  // one NaN, then falling
-            _ => if i == 2 { f64::NAN } else { 100.0 },      // one NaN, then flat
+            3 => y * (1.0 - 1e-6),                           // falling, strictly, for the whole stream
+            _ => 100.0 + (rng.unit() - 0.5) * 50.0,          // random
         };
+        let inject = special != 0
+            && match position {
+                0 => i == 0,
+                1 => i == maxp + 1,
+                2 => i == mid,
+                3 => i % gap == gap - 1,
+                _ => i == 2,
+            };
+        let x = if inject { sv } else { y };
         if bars {
-            inst.next_bar(&B { o: x, h: x + 1.0, l: x - 0.4, c: x + 0.3, v: 10.0 + (i % 5) as f64 });
+            // an injected value is put into every price field unchanged (x + 1.0 would turn -0.0 into an ordinary value)
+            let b = if inject { B { o: x, h: x, l: x, c: x, v: 10.0 } } else { B { o: x, h: x + 1.0, l: x - 0.4, c: x + 0.3, v: 10.0 + (i % 5) as f64 } };
+            inst.next_bar(&b);
         } else {
             inst.next(x);
         }
@@ -73,7 +102,7 @@ pub fn check(case: &Case, rec: &mut Rec) -> Option<Failure> {
     let live_end = crate::alloc::live();
     let growth = live_end - live_warm;
     if growth > bound as isize {
-        return fail(case, "heap-grows", format!("live heap grew by {} bytes over {} inputs after warm-up (bound {} = 256 + 64·Σperiods)", growth, len, bound));
+        return fail(case, "heap-grows", format!("live heap grew by {} bytes over {} inputs after warm-up (bound {} = 256 + 64·Σperiods); stream: {} tail{}", growth, len, bound, TAILS[tail.min(4)], if special == 0 { String::new() } else { format!(", {} injected at: {}", sv, POSITIONS.get(position).copied().unwrap_or("third sample")) }));
     }
     drop(inst);
     None
@@ -102,22 +131,32 @@ pub fn generate(r: &mut Runner) {
     // long runs: live heap + size at checkpoints, every shape
     let len = if r.tier == Tier::Quick { 100_000usize } else { 1_000_000usize };
     r.log_every = u64::MAX;
+    // the FULL product  tail {rising, alternating, flat, falling, random}
+    //                 × ( no special value  +  {NaN, +inf, -inf, -0.0} × {first sample, right after the window filled,
+    //                                                                     mid-stream, repeated} )
+    // for every indicator: which combination hurts a data-dependent structure cannot be known in advance
+    let mut combos: Vec<(usize, usize, usize)> = vec![];
+    for tail in 0..TAILS.len() {
+        combos.push((tail, 0, 0));
+        for special in 1..SPECIAL_VALUES.len() {
+            for position in 0..POSITIONS.len() {
+                combos.push((tail, special, position));
+            }
+        }
+    }
     for (k, name) in ind::NAMES.iter().enumerate() {
         let (np, nm) = ind::arity(name).unwrap();
-        for shape in 0..7usize {
-            if r.tier == Tier::Quick && (k + shape) % 2 == 1 {
-                continue;
-            }
-            let p = [1usize, 7, 64, 200, 512, 14, 3][(k + shape) % 7];
+        for (j, &(tail, special, position)) in combos.iter().enumerate() {
+            let p = [1usize, 7, 64, 200, 512, 14, 3][(k + j + j / 7) % 7];
             let p = if matches!(*name, "MeanAbsoluteDeviation" | "CommodityChannelIndex" | "EfficiencyRatio") { p.min(64) } else { p };
             let ps: Vec<usize> = (0..np).map(|_| p).collect();
             let ms: Vec<f64> = (0..nm).map(|_| 2.0).collect();
             let mut c = Case::new("C18", "long", name, &ps, &ms);
-            c.extra = vec![(r.rng.u64() % (1 << 50)) as f64, len as f64, shape as f64];
+            c.extra = vec![(r.rng.u64() % (1 << 50)) as f64, len as f64, tail as f64, special as f64, position as f64];
             r.steps += len as u64;
             r.run(c, true);
         }
     }
 }
 
-pub const RULE: &str = "short: all 22 indicators, periods 1..=16 densely then geometrically to 48 (quick) / 512 (thorough): bincode size after EVERY input of 2n+5 inputs must stay <= 256 + 64·Σperiods and be constant after the first input; long: streams of 10^5 (quick) / 10^6 (thorough) inputs of seven shapes (monotone up, alternating, flat, monotone down, random, one NaN then falling, one NaN then flat — shapes matter for data-dependent structures) with periods from {1,7,64,200,512}: bincode size at 8 checkpoints, and live heap bytes (counting global allocator of the harness process) after warm-up (3n+10 inputs) vs at the end must not grow by more than the same bound. Every case non-trivial.";
+pub const RULE: &str = "short: all 22 indicators, periods 1..=16 densely then geometrically to 48 (quick) / 512 (thorough): bincode size after EVERY input of 2n+5 inputs must stay <= 256 + 64·Σperiods and be constant after the first input; long: streams of 10^5 (quick) / 10^6 (thorough) inputs, for every indicator the full product of tail {rising, alternating, flat, strictly falling, random} × (no special value + special value {NaN, +inf, -inf, -0.0} × position {first sample, right after the window has filled, mid-stream (half-way, long after warm-up), repeated every g inputs with g drawn in 2..=2n+50}) = 85 shapes (shapes matter for data-dependent structures; the special value replaces the ordinary sample, for bar inputs in every price field) with periods from {1,3,7,14,64,200,512}: bincode size at 8 checkpoints, and live heap bytes (counting global allocator of the harness process) after warm-up (3n+10 inputs) vs at the end must not grow by more than the same bound. Every case non-trivial.";
